@@ -119,6 +119,14 @@ Theorem C07_keeps_running_partial : forall E ds n s,
 Proof. exact keeps_running_partial. Qed.
 Print Assumptions C07_keeps_running_partial.
 
+(* stream backends: the model's framing returns exactly the announced bytes (length computed in
+   N, no wrap-around); that pkg/framer's Go arithmetic agrees on all 65536 header values is
+   checked exhaustively by the harness, not proved (see Model/Proto.v frame_pop) *)
+Theorem C07_frame_pop_exact : forall b m rest, frame_pop b = Some (m, rest) ->
+  exists lo hi, b = lo :: hi :: m ++ rest /\ List.length m = N.to_nat (lo + 256 * hi).
+Proof. exact frame_pop_exact. Qed.
+Print Assumptions C07_frame_pop_exact.
+
 (* non-vacuity: the repaired loop really runs through the three historical witnesses, and a
    well-formed session really establishes, receives an update and delivers a packet *)
 Example C07_nonvacuous :
